@@ -189,7 +189,7 @@ func init() {
 			inFR := c.field("Association", "inFastRecovery")
 			mi := c.field("chunkPayloadData", "missIndicator")
 			n := 0
-			for _, a := range c.storesIn(pfr, inFR) {
+			for _, a := range c.storesInRegion(pfr, inFR) {
 				if !IsConstBool(true)(a.Val) {
 					continue
 				}
@@ -197,7 +197,7 @@ func init() {
 				c.Dom("fr-entry-on-third-miss", a.Instr, CmpCond(token.EQL, IsLoadOf(mi), IsConstInt(3)), "missIndicator == 3")
 				// every third miss indication outside fast recovery is a loss signal: no other condition may suppress the cut
 				var extra []string
-				for _, f := range DomFacts(a.Instr.Block()) {
+				for _, f := range localFactsUpTo(a.Instr, pfr) {
 					lf, _ := loadedField(f.Cond)
 					switch {
 					case lf != nil && (lf.Name() == "inFastRecovery" || lf.Name() == "acked"):
@@ -260,7 +260,7 @@ func init() {
 			setR := c.Fn("Association.setRWND")
 			inflightBytes := c.Fn("payloadQueue.getNumBytes")
 			n := 0
-			for _, mc := range callsIn(pop, move) {
+			for _, mc := range callsInDeep(pop, move, 1) {
 				underC := DominatedByExt(mc, CmpCond(token.LEQ, Derives(IsCallOf(inflightBytes)), IsCallOf(cwnd)))
 				underR := DominatedByExt(mc, CmpCond(token.LEQ, AnyV, IsCallOf(rwnd)))
 				if !underC && !underR {
